@@ -472,8 +472,13 @@ func builtinLoadString(env *LEnv, args *LVal) *LVal {
 	// share the current lexical environment.  The loaded source will share a
 	// stack but the stack frame TROBlock will prevent tail recursion
 	// optimization from unwinding the stack to/beyond this point.
+	//
+	// The load runs under the context of the calling evaluation (bridged
+	// onto env by call), not under whatever context the root environment
+	// happens to hold: called from inside a function or a let, the two
+	// differ and the loaded source would ignore cancellation.
 	env.Runtime.Stack.Top().TROBlock = true
-	v := env.root().LoadString(_name, source.Str)
+	v := env.root().LoadStringContext(env.evalCtx, _name, source.Str)
 	if v.Type == LError && v.CallStack() == nil {
 		v.SetCallStack(env.Runtime.Stack.Copy())
 	}
@@ -500,8 +505,13 @@ func builtinLoadBytes(env *LEnv, args *LVal) *LVal {
 	// share the current lexical environment.  The loaded source will share a
 	// stack but the stack frame TROBlock will prevent tail recursion
 	// optimization from unwinding the stack to/beyond this point.
+	//
+	// The load runs under the context of the calling evaluation (bridged
+	// onto env by call), not under whatever context the root environment
+	// happens to hold: called from inside a function or a let, the two
+	// differ and the loaded source would ignore cancellation.
 	env.Runtime.Stack.Top().TROBlock = true
-	v := env.root().Load(_name, bytes.NewReader(source.Bytes()))
+	v := env.root().LoadContext(env.evalCtx, _name, bytes.NewReader(source.Bytes()))
 	if v.Type == LError && v.CallStack() == nil {
 		v.SetCallStack(env.Runtime.Stack.Copy())
 	}
@@ -518,8 +528,13 @@ func builtinLoadFile(env *LEnv, args *LVal) *LVal {
 	// share the current lexical environment.  The loaded source will share a
 	// stack but the stack frame TROBlock will prevent tail recursion
 	// optimization from unwinding the stack to/beyond this point.
+	//
+	// The load runs under the context of the calling evaluation (bridged
+	// onto env by call), not under whatever context the root environment
+	// happens to hold: called from inside a function or a let, the two
+	// differ and the loaded source would ignore cancellation.
 	env.Runtime.Stack.Top().TROBlock = true
-	v := env.root().LoadFile(loc.Str)
+	v := env.root().LoadFileContext(env.evalCtx, loc.Str)
 	if v.Type == LError && v.CallStack() == nil {
 		v.SetCallStack(env.Runtime.Stack.Copy())
 	}
